@@ -48,6 +48,7 @@ from quara.simulation.random_effective_lindbladian_generation_setting import (
     RandomEffectiveLindbladianGenerationSetting,
 )
 from quara.utils.number_util import to_stream
+from quara.settings import Settings
 
 
 class StandardQTomographySimulationSetting:
@@ -596,6 +597,15 @@ def load_test_setting(
         return test_setting
 
 
+def _call_with_atol(atol: float, func, *args, **kwargs):
+    """sets the global tolerance to ``atol`` and calls ``func``.
+
+    joblib may run ``func`` in another process. Such a process does not inherit ``Settings`` of the caller.
+    """
+    Settings.set_atol(atol)
+    return func(*args, **kwargs)
+
+
 def execute_estimation_with_saved_empi_dists_sequences(
     qtomography: "StandardQTomography",
     simulation_setting: StandardQTomographySimulationSetting,
@@ -608,7 +618,9 @@ def execute_estimation_with_saved_empi_dists_sequences(
 
     estimation_results = joblib.Parallel(n_jobs=n_jobs, verbose=2)(
         [
-            joblib.delayed(_load_and_execute_estimation)(
+            joblib.delayed(_call_with_atol)(
+                Settings.get_atol(),
+                _load_and_execute_estimation,
                 Path(dir_path_empi_dists_sequences)
                 / f"empi_dists_{empi_dists_index}.pickle",
                 qtomography,
@@ -647,7 +659,9 @@ def execute_estimation(
 
     estimation_results = joblib.Parallel(n_jobs=n_jobs, verbose=2)(
         [
-            joblib.delayed(_execute_estimation)(
+            joblib.delayed(_call_with_atol)(
+                Settings.get_atol(),
+                _execute_estimation,
                 qtomography,
                 empi_dists_seq,
                 # estimation updates loss and algo, and tasks may run in threads of one process.
